@@ -328,6 +328,7 @@ func (w *World) createEntities(arch *archetype, count uint32) {
 func (w *World) removeEntities(filter Filter) int {
 	w.checkLocked()
 
+	arches := w.getArchetypes(filter)
 	lock := w.lock()
 
 	var bits event.Subscription
@@ -335,7 +336,6 @@ func (w *World) removeEntities(filter Filter) int {
 
 	var count uint32
 
-	arches := w.getArchetypes(filter)
 	numArches := int32(len(arches))
 	var i int32
 	for i = 0; i < numArches; i++ {
